@@ -81,7 +81,7 @@ class Suite:
     implementation's observations, and a rule counting non-trivial cases."""
 
     def __init__(self, name, domain, ops, monitor=None, stats=None, resets=("new",), args=(), compare=True,
-                 exhaustive=False, retry_args=None):
+                 exhaustive=False, retry_args=None, binary=None, env=None):
         self.name, self.domain, self.ops = name, domain, ops
         self.monitor, self.stats = monitor, stats or {}
         self.resets, self.args = resets, list(args)
@@ -90,6 +90,8 @@ class Suite:
         # timing-sensitive suites (goroutines observed after a quiescence wait): a session that shows a problem is
         # re-run on its own with these harness arguments (a much longer quiescence wait) before it is believed
         self.retry_args = retry_args
+        self.binary = binary      # another build of the harness (e.g. with -race)
+        self.env = env or {}
 
     def session_of(self, idx):
         start = idx
@@ -205,6 +207,18 @@ class Check:
             ob.detail = err[-600:]
             self.broken.append((ob.name, "the harness no longer builds against the working tree: " + err[-400:]))
 
+    def build_race_harness(self):
+        ob = Obligation("harness-build", "go build -race -tags verif ./harness against /repo working tree")
+        self.obligations.append(ob)
+        src = os.path.join(VERIF, "harness")
+        with Lock():
+            rc, out, err = run(["go", "build", "-race", "-tags", "verif", "-o", HARNESS_BIN + "-race", "."], cwd=src, timeout=1500)
+        ob.ok = rc == 0
+        if rc != 0:
+            ob.detail = err[-600:]
+            self.broken.append((ob.name, "the race-instrumented harness no longer builds: " + err[-400:]))
+        return ob.ok
+
     def theorem_names(self):
         names = []
         for m in self.theorem_modules:
@@ -304,18 +318,18 @@ class Check:
                 self.broken.append((f"theorem {n}", "depends on disallowed axioms " + ", ".join(bad)))
 
     # ---------- correspondence ----------
-    def _exec(self, binary, domain, args, ops, timeout):
+    def _exec(self, binary, domain, args, ops, timeout, env=None):
         data = "\n".join(ops) + "\n"
         try:
             p = subprocess.run([binary, domain] + list(args), input=data, stdout=subprocess.PIPE, stderr=subprocess.PIPE,
-                               text=True, timeout=timeout, env=dict(os.environ, GOMEMLIMIT="4GiB"))
+                               text=True, timeout=timeout, env=dict(os.environ, GOMEMLIMIT="4GiB", **(env or {})))
         except subprocess.TimeoutExpired as e:
             out = e.stdout.decode() if isinstance(e.stdout, bytes) else (e.stdout or "")
             return out.split("\n")[:-1] if out else [], "timeout"
         lines = p.stdout.split("\n")
         if lines and lines[-1] == "":
             lines.pop()
-        status = "ok" if p.returncode == 0 else f"exit {p.returncode}: {p.stderr[-300:]}"
+        status = "ok" if p.returncode == 0 else f"exit {p.returncode}: {p.stderr[-1500:] if 'DATA RACE' in p.stderr else p.stderr[-300:]}"
         return lines, status
 
     def run_suite(self, suite, timeout=1800):
@@ -329,7 +343,7 @@ class Check:
             ob.ok = False
             ob.detail = "harness unavailable"
             return
-        impl, st = self._exec(HARNESS_BIN, suite.domain, suite.args, suite.ops, timeout)
+        impl, st = self._exec(suite.binary or HARNESS_BIN, suite.domain, suite.args, suite.ops, timeout, suite.env)
         rec["impl_status"] = st
         if st != "ok" or len(impl) != len(suite.ops):
             # the process died (crash / timeout): the op after the last answered one is the suspect
